@@ -15,7 +15,8 @@ LEVEL = "exploration"
 PROP = "C01"
 RULE = ("every integer array in scope (all 1-D N<=3 over {-1,0,1,2}, all 2-D N<=2,C<=2 over {0,1,2}, N=0 included; dtype-boundary arrays; "
         "79..120-row filler+payload arrays on both sides of the where/row-scan switch) x common omitted / each present value / one absent "
-        "value x counts omitted / exact x mapping omitted / every map into a 3-element target (injective and many-to-one) / permutations, "
+        "value x counts omitted / exact x mapping omitted / every map into a 3-element target (injective and many-to-one; an evenly spaced "
+        "subset plus fixed shift/rotation/fold maps when there are more than 4 keys) / permutations, "
         "each followed by to_array with dtype=int, default dtype and a value mapping; plus to_array on every well-formed index state in "
         "scope (built directly) x default / int / tightest dtype x every total mapping. A case is non-trivial when the array has at least "
         "one cell; distinct by construction (enumeration without repetition)")
